@@ -384,7 +384,8 @@ def run(ctx):
     )
     lib = ElemLib(ctx.repo)
     tables_rule(ctx, lib)
-    orientation_rule(ctx)
+    # (R8.2 looked for a `normals *= -1` / np.sign statement in the 3-D branch of Get_pointsInElem: a frozen idiom; retired:
+    # R8.23 interprets the function on a TETRA4 and a HEXA8 in both orientations.)
     rigid_rule(ctx)
     measure_rule(ctx)
     from .. import indexspace
@@ -399,6 +400,7 @@ def run(ctx):
     ctx.attempt(projector_rule, ctx, lib)
     ctx.attempt(reflection_orientation_rule, ctx, lib)
     ctx.attempt(surface_normal_rule, ctx, lib)
+    ctx.attempt(point_in_solid_rule, ctx, lib)
     ctx.attempt(evaluation_order_rule, ctx, lib)
     ctx.attempt(distorted_selection_rule, ctx, lib)
     from .c07 import weighted_jacobian_rule as _weighted_jacobian_rule
@@ -1221,3 +1223,64 @@ def surface_normal_rule(ctx, lib, rid="R8.22"):
             r.fail(f.qualname, f"area-normal:{name}", f.file, f.lineno, "Get_normals_e_pg", f"{name} face in the plane z = x/2 - y/3: {bad}: the length of the un-normalised normal is not the surface Jacobian at that point - the sum of w n over a closed boundary does not vanish and the flux of the position vector is not the volume")
         else:
             r.ok(f"{name}: n[e, p] == dx/dr x dx/ds at the {len(gp)} integration points")
+
+
+def point_in_solid_rule(ctx, lib, rid="R8.23"):
+    """'point location ... before and after the mesh is moved or mirrored' in 3-D: `Get_pointsInElem` is interpreted on a
+    TETRA4 and a HEXA8 with exact rational vertices, as meshed and mirrored (x -> -x with the connectivity kept: the
+    orientation of the element is reversed), for query points that are inside, on a face, at a vertex and beyond each
+    face.  The points it returns must be exactly those of the closed element, whatever the orientation - however the
+    function obtains outward directions (face tables + orientation test, centroid, ...).  (`Normalize` is a positive
+    rescaling: it does not change on which side of a face a point lies.)"""
+    from ..femchain import fe_hook_full
+
+    repo = ctx.repo
+    ge = repo.cls(GE)
+    f = ge.methods["Get_pointsInElem"]
+    r = ctx.rule(rid, "3-D point-in-element test interpreted on a TETRA4 and a HEXA8, as meshed and mirrored: the points returned are exactly those of the closed element (inside, on a face, at a vertex; none of the points beyond a face)", min_instances=4)
+    solids = {
+        "TETRA4": [(Q(0), Q(0), Q(0)), (Q(2), Q(0), Q(0)), (Q(0), Q(3), Q(0)), (Q(0), Q(0), Q(1))],
+        "HEXA8": [(Q(0), Q(0), Q(0)), (Q(2), Q(0), Q(0)), (Q(2), Q(1), Q(0)), (Q(0), Q(1), Q(0)), (Q(0), Q(0), Q(3)), (Q(2), Q(0), Q(3)), (Q(2), Q(1), Q(3)), (Q(0), Q(1), Q(3))],
+    }
+    queries = {
+        "TETRA4": [((Q(1, 4), Q(1, 4), Q(1, 8)), True, "inside"), ((Q(1, 2), Q(1, 2), Q(0)), True, "on a face"), ((Q(2), Q(0), Q(0)), True, "a vertex"),
+                   ((Q(1, 4), Q(1, 4), Q(-1, 8)), False, "below the base"), ((Q(2), Q(3), Q(1)), False, "beyond the oblique face"), ((Q(-1, 10), Q(1), Q(1, 4)), False, "behind the face x = 0")],
+        "HEXA8": [((Q(1), Q(1, 2), Q(1)), True, "inside"), ((Q(2), Q(1, 3), Q(2)), True, "on a face"), ((Q(0), Q(1), Q(3)), True, "a vertex"),
+                  ((Q(1), Q(1, 2), Q(7, 2)), False, "above the top"), ((Q(-1, 100), Q(1, 2), Q(1)), False, "behind the face x = 0"), ((Q(1), Q(11, 10), Q(1)), False, "beyond the face y = 1")],
+    }
+
+    def hook(fn, args, kwargs):
+        fi = fn if isinstance(fn, FuncInfo) else getattr(fn, "finfo", None)
+        if fi is not None and fi.name == "Normalize":
+            return args[0]
+        return fe_hook_full(fn, args, kwargs)
+
+    for name, verts in solids.items():
+        ed = lib.get(name)
+        for label, mirror in (("as meshed", False), ("mirrored (x -> -x, connectivity kept)", True)):
+            r.instance(fn=f.qualname)
+            vs = [(-x, y, z) if mirror else (x, y, z) for x, y, z in verts]
+            qs = [(((-p[0], p[1], p[2]) if mirror else p), inside, what) for p, inside, what in queries[name]]
+            n = len(vs)
+            obj = lib.make_obj(name)
+            connect = XArray((1, n), list(range(n)), "i")
+            obj.attrs.update(Ne=1, Nn=n, Ncoords=n, connect=connect, coord=XArray((n, 3), [c for v in vs for c in v]), inDim=3,
+                             _global_to_local_nodes=XArray((n,), list(range(n)), "i"), nodes=XArray((n,), list(range(n)), "i"))
+            obj.attrs[ge.mangle("__connect")] = connect
+            obj.attrs[ge.mangle("__coord")] = obj.attrs["coord"]
+            obj.attrs[ge.mangle("__dim")] = 3
+            I = Interp(repo)
+            I.call_hook = hook
+            pts = XArray((len(qs), 3), [c for p, _i, _w in qs for c in p])
+            try:
+                idx = sorted(int(k) for k in XArray.from_nested(I.call_function(f, [pts, 0], self_obj=obj)).data)
+            except XRaise as e:
+                r.fail(f.qualname, f"solid:{name}:{label}", f.file, f.lineno, "Get_pointsInElem", f"{name} {label}: raises {e}")
+                continue
+            want = [k for k, (_p, inside, _w) in enumerate(qs) if inside]
+            if idx == want:
+                r.ok(f"{name} {label}: {len(want)} of {len(qs)} query points located in the element")
+            else:
+                miss = [qs[k][2] for k in want if k not in idx]
+                extra = [qs[k][2] for k in idx if k not in want]
+                r.fail(f.qualname, f"solid:{name}:{'mirrored' if mirror else 'meshed'}", f.file, f.lineno, "Get_pointsInElem", f"{name} {label}: " + (f"points of the element rejected: {miss}; " if miss else "") + (f"points outside accepted: {extra}; " if extra else "") + "the half-space tests use normals that are not outward for this orientation of the element (after a reflection the Jacobian is negative and every face table is inward)")
